@@ -282,6 +282,17 @@ def j6_just_filled(ctx):
             continue
         field = "read" if "overlapped-lists" in F.features else "peek"
         ok_paths = 0
+        # peeking twice gives the same event: the container is refilled from the reader only when it is empty
+        for p in ctx.paths(b):
+            fills = [i for i, e in enumerate(p) if (e[0] == "call" and name_is(e[2], "push_front") and ends_with_fields(e[3][0], field)) or (e[0] == "store" and is_self_field(e[2], field))]
+            reads = [i for i, e in enumerate(p) if e[0] == "call" and name_is(e[2], "XmlReader::next", "next_impl") and not isinstance(e[1], tuple)]
+            if not fills and not reads:
+                continue
+            first = min(fills + reads)
+            empty = any((e[0] == "switch" and e[2][0] == "call" and name_is(e[2][2], "is_empty", "is_none") and e[3] != 0) or
+                        (e[0] == "switch" and e[2][0] == "discr" and is_self_field(strip_wrappers(e[2][1]), field) and e[3] == 0) or
+                        (e[0] == "switch" and e[2][0] == "discr" and call_is(e[2][1], "front", "as_ref", "front_mut") and e[3] == 0) for e in p[:first])
+            ctx.ob("J6", "peek:refill-only-when-empty", empty, "the reader is asked for the next event only on paths where `%s` was found empty (otherwise a peeked event would be overwritten or overtaken)" % field, config=cfg)
         for p in ctx.paths(b):
             pan = [i for i, e in enumerate(p) if e[0] == "call" and panics.is_panicking(e[2])]
             if not pan:
@@ -342,7 +353,28 @@ def rd_reader_total(ctx):
         o["rule"] = "RD"
 
 
-RULES = [("A", a_audit), ("RD", rd_reader_total), ("J1", j1_peek_then_next), ("J1b", j1b_preconditions), ("J2", j2_flags), ("J3", j3_config), ("J4", j4_merging), ("J6", j6_just_filled)]
+def j2b_fallthrough(ctx):
+    """`unreachable!` arms justified by "the caller only lets variants V through" stay unreachable only while the match
+    still lists every variant of V: the panicking path must be the otherwise edge of a switch that lists them."""
+    table = {"de::map::MapValueVariantAccess": ("unit_variant", {"Start", "Text"})}
+    for cfg, F in ctx.facts.items():
+        dev = F.variants("de::DeEvent")
+        for ty, (fn, need) in table.items():
+            for b in F.bodies_with(ty, "VariantAccess", end=fn):
+                n = 0
+                for p in ctx.paths(b):
+                    pan = [i for i, e in enumerate(p) if e[0] == "call" and panics.is_panicking(e[2])]
+                    if not pan:
+                        continue
+                    n += 1
+                    sw = [e for e in p[:pan[0]] if e[0] == "switch" and is_next_discr(e[2])]
+                    listed = {dev[v] for e in sw for v in e[4] if isinstance(v, int) and v < len(dev)}
+                    took = {dev[e[3]] for e in sw if isinstance(e[3], int) and e[3] < len(dev)}
+                    ctx.ob("J2", "%s:unreachable-arm" % fn, need <= listed and not (took & need), "the unreachable!() arm is taken only for events other than %s (listed before it: %s)" % (sorted(need), sorted(listed)), config=cfg)
+                ctx.floor("J2", "%s panicking paths" % fn, n, 1, config=cfg)
+
+
+RULES = [("A", a_audit), ("J2b", j2b_fallthrough), ("RD", rd_reader_total), ("J1", j1_peek_then_next), ("J1b", j1b_preconditions), ("J2", j2_flags), ("J3", j3_config), ("J4", j4_merging), ("J6", j6_just_filled)]
 
 
 def THOROUGH_EXTRA(ctx):
